@@ -163,6 +163,17 @@ class Norm:
                 return r
         if isinstance(x, tuple) and x[0] == "zeros" and lo[1] == hi[1]:
             return ("zeros", hi[0] - lo[0])
+        if isinstance(x, tuple) and x[0] == "SETBYTE" and len(x) == 4 and isinstance(x[2], tuple) and x[2][0] == "int" \
+                and lo[1] == 0 and hi[1] == 0:
+            i = x[2][1]
+            if lo == (i, 0) and hi == (i + 1, 0):
+                # exactly the byte that was set
+                v = x[3]
+                if isinstance(v, tuple) and v[0] == "int" and 0 <= v[1] < 256:
+                    return ("b", bytes([v[1]]))
+                return ("byte", v)
+            if hi[0] <= i or lo[0] > i:
+                return self.sl(x[1], lo, hi)      # a range that does not contain the set byte
         return ("sl", x, lo, hi)
 
     def _slice_cat(self, parts, lo, hi):
@@ -582,6 +593,8 @@ class Norm:
             st = self.state(a0)
             if isinstance(st, tuple) and st[0] == "HST":
                 return ("H", st[1], self.cat(st[2]))
+        if name == "aws_lc_rs::digest::digest" and len(args) == 2:
+            return ("H", self.awsalg(a0), self.cat([args[1]]))      # one-shot form of Context::new + update + finish
         if name == "aws_lc_rs::hkdf::Salt::new":
             return ("AWSSALT", self.awsalg(a0), args[1])
         if name == "aws_lc_rs::hkdf::Salt::extract":
@@ -771,7 +784,9 @@ class Norm:
     # ---- signatures -------------------------------------------------
     SIG_IDENT = ("ed25519::Signature::to_bytes", "ed25519::Signature::from_bytes", "ecdsa::Signature::<NistP384>::to_bytes",
                  "ecdsa::Signature::<NistP384>::from_bytes", "<Signature as TryFrom<&[u8]>>::try_from",
-                 "<Signature as Into<Box<[u8]>>>::into", "lc::Signature::to_bytes", "lc::Signature::from_bytes")
+                 "<Signature as Into<Box<[u8]>>>::into", "lc::Signature::to_bytes", "lc::Signature::from_bytes",
+                 "rsa::pss::signature::<impl From<Signature> for Box<[u8]>>::from", "<Box<[u8]> as From<Signature>>::from",
+                 "<Signature as Into<Vec<u8>>>::into", "<Vec<u8> as From<Signature>>::from")
 
     def unok(self, t):
         while isinstance(t, tuple) and t and t[0] == "ok":
